@@ -280,6 +280,35 @@ def chk_huge_trail_key(sel, v):
             keep = [o for o in m18.obs if o.name.startswith("enum_rej_") or o.name.startswith("flag_exact") or o.name.startswith("flag_names_rej_")]
             m18.obs = keep
             mods.append(m18)
+    mv = Module("c04_facade").pre('''
+from adaptix import Retort, validator, loader, P
+from adaptix.load_error import ValidationLoadError, ValueLoadError
+import dataclasses
+# the builtin wrappers around user predicates: a predicate that says "no" is signalled by a LoadError in every way the error can be given
+def _nonneg(x): return type(x) is not int or x >= 0
+def _mk_err(x): return ValueLoadError("negative", x)
+V_FORMS = {"none": (), "msg": ("must be >= 0",), "factory": (_mk_err,)}
+@dataclasses.dataclass
+class VM:
+    a: int
+    b: int = 0
+V_RS = {(f, k): r for f, args in V_FORMS.items() for k, r in six_retorts([validator(int, _nonneg, *args), validator(P[VM].b, _nonneg, *args)]).items()}
+V_LD = {key: (r.get_loader(int), r.get_loader(List[int]), r.get_loader(VM), r.get_loader(Dict[str, Optional[int]])) for key, r in V_RS.items()}
+def validator_forms(fi, v, w, shape):
+    form = ("none", "msg", "factory")[pick(fi, 3)]
+    for key, (l_int, l_list, l_vm, l_dict) in V_LD.items():
+        if key[0] != form: continue
+        data, ld = ((v, l_int), ([w, v], l_list), ({"a": w, "b": v}, l_vm), ({"k": v, "n": None}, l_dict))[pick(shape, 4)]
+        o = outcome(ld, data)
+        if o[0] == "other_exc": return False
+        bad = v < 0 or (shape in (1, 2) and w < 0)
+        if bad != (o[0] == "load_error"): return False
+    return True
+''')
+    mv.ob("validator_forms", "fi: int, v: int, w: int, shape: int", "return validator_forms(fi, v, w, shape)", pre=["0 <= fi < 3", "0 <= shape < 4"], timeout=120,
+          family="builtin wrappers around user predicates (validator): a refusing predicate is a LoadError, whichever way the error is specified",
+          bounds="validator(pred, func) / (pred, func, message) / (pred, func, error factory), bound to a type and to a field; datum bare, in a list, in a model, in a dict; symbolic ints; 6 modes")
+    mods.append(mv)
     return Plan("C04", mods,
                 assumptions=["CrossHair models of builtins (floats as reals: numeric boundary regions are owned by the E2 kernels)"],
                 bounds={}, outside=["strings longer than the bound"])
